@@ -64,6 +64,11 @@ Oracles:
     monotonic fit at scale h equal to it within INACTIVE_TOL (measured worst 2.6e-7);
   * `knotscale:mono:decreasing-pair` / `knotscale:mono:negative-coefficient`: the first sentence of the property at large and small
     axis scales, exactly on the float coefficients.
+  * `knotscale:penalty-matrix:mono` / `:plain`: for every dimension of the first 150 (quick) problems the real calc_penalty is called
+    in-process (ndim = 1, mono = 1 and mono = 0) on the knots at scale 1 and on the rescaled knots; `psvdriver C10` (K line) computes
+    the same four matrices exactly from the model (`dtd (finiteDiffMono ..)`, `dtd (finiteDiff ..)` on rationals) and checks the
+    instance of finiteDiff_knot_scale (entries on h*t times h^p = entries on t) on these executed definitions; the code's doubles must
+    agree to PEN_TOL = 1e-12 of the largest entry (measured worst 8e-16).
 These signatures are distinct from the known finding inactive:differs:nd (which compares monotonic with unconstrained in >= 2
 dimensions); the 2-d problems of this stream compare monotonic with monotonic only.
 """
@@ -75,6 +80,7 @@ ENV_K = 4096            # rounding envelope of a double-precision evaluation: EN
 INACTIVE_TOL = 2e-5     # relative to max |coefficient| (float storage 6e-8, two different normal-equation bases)
 KS_POW2_TOL = 2.0 ** -22   # knot-scale stream, every scale a power of two: the assembled systems are bit-identical (two float ulps of the largest coefficient allowed; measured 0)
 KS_TOL = 1e-6           # knot-scale stream, other scales (h*knot is rounded): rounding level (measured 0 in 12 000 problems on the unchanged tree)
+PEN_TOL = 1e-12         # code's DtD of one dimension (calc_penalty, both branches) vs the exact matrix of the model, relative to its largest entry (measured worst 8e-16)
 KS_CLASSES = ["inactive (smooth increasing)", "increasing with a ripple, strong smoothing (inactive once the ripple is ironed out)",
               "oscillating (active)", "decreasing (active)", "noisy increasing (partly active)"]
 
@@ -329,7 +335,55 @@ def ks_rel(a, b):
     return max(abs(x - y) for x, y in zip(a, b)) / scale
 
 
-def ks_evaluate(ctx, acc, path):
+def ks_penalty(ctx, acc, plines, kfile, cfile):
+    """the code's penalty matrix of one dimension (calc_penalty called in-process, mono = 1 and 0, knots at scale 1 and on the rescaled
+    axis) against the exact matrix of the model (`psvdriver C10`, K line: dtd (finiteDiffMono ..) / dtd (finiteDiff ..) on rationals)"""
+    ks = acc["knotscale"]
+    K = open(kfile).read().splitlines(); C = open(cfile).read().splitlines()
+    dout = kfile + ".drv"
+    if not K: return
+    if len(K) != len(C) or not ctx.driver_ok() or not ctx.run_driver("C10", kfile, dout):
+        ctx.tie_ok = False; ctx.broken.append({"kind": "penalty-matrix records: driver failed or harness output truncated", "K": len(K), "C": len(C)}); return
+    D = open(dout).read().splitlines()
+    if len(D) != len(K):
+        ctx.tie_ok = False; ctx.broken.append({"kind": "penalty-matrix records: driver output truncated", "K": len(K), "D": len(D)}); return
+    owners = [(P, Kl, d) for (P, Kl) in plines for d in range(int(P.split()[1]))]
+    names = ["monotonic branch (finitediff*tril), knots at scale 1", "plain branch, knots at scale 1",
+             "monotonic branch (finitediff*tril), rescaled knots", "plain branch, rescaled knots"]
+    for q, (k, c, d) in enumerate(zip(K, C, D)):
+        cw = c.split(); dw = d.split(); kw = k.split()
+        if dw[0] != "pen" or int(dw[1]) != int(cw[1]):
+            ctx.tie_ok = False
+            if len(ctx.broken) < 5: ctx.broken.append({"kind": "penalty-matrix record rejected by the driver", "K": k[:300], "driver": d[:100]})
+            continue
+        n = int(cw[1]); status = int(cw[2]); order, po, nk = int(kw[1]), int(kw[2]), int(kw[3]); h = dbl(kw[4 + nk])
+        if dw[2] != "thm=1":
+            # instance of finiteDiff_knot_scale on the executed definitions failed: theorem and model have come apart
+            ctx.tie_ok = False
+            if len(ctx.broken) < 5: ctx.broken.append({"kind": "finiteDiff_knot_scale instance failed in the driver", "K": k[:300]})
+        ks["penalty_exact_scaling" if dw[3] == "exact=1" else "penalty_rounded_scaling"] += 1
+        cv = [dbl(u) for u in cw[3:]]; dv = [dbl(u) for u in dw[4:]]
+        P, Kl, dim = owners[q] if q < len(owners) else (None, None, None)
+        for f in range(4):
+            a = cv[f * n * n:(f + 1) * n * n]; b = dv[f * n * n:(f + 1) * n * n]
+            acc["evaluations"] += 1; ks["penalty_matrices"] += 1
+            scale = max(abs(x) for x in b) or 1.0
+            if (status >> f) & 1 or any(x != x for x in a): e = float("inf")
+            else: e = max(abs(x - y) for x, y in zip(a, b)) / scale
+            if e != float("inf"): ks["worst_penalty_rel"] = max(ks["worst_penalty_rel"], e)
+            if e > PEN_TOL:
+                ctx.tie_ok = False
+                nz_exact = sum(1 for x in b if x != 0); nz_code = sum(1 for x in a if x != 0)
+                report(ctx, acc, "knotscale:penalty-matrix:" + ("mono" if f % 2 == 0 else "plain"),
+                       {"knotscale": True, "problem_line": P, "scale_line": Kl, "dimension": dim, "order": order, "penalty_order": po, "ncoef": n,
+                        "axis_scale_h": h, "matrix": names[f], "max_rel_diff": e, "largest_exact_entry": scale, "nonzeros_exact": nz_exact, "nonzeros_code": nz_code,
+                        "knots": [dbl(u) for u in (kw[4:4 + nk] if f < 2 else kw[6 + nk:6 + 2 * nk])], "code_DtD_row_major": a, "exact_DtD_row_major": b,
+                        "replay_cmd": "python3 bin/check.py C10 --replay <this file>"},
+                       "calc_penalty(%s), penalty order %d, spline order %d, %d coefficients, knots %s: the matrix DtD differs from the exact p-th divided-difference penalty by %.3e of its largest entry %.3e (tolerance %.0e; non-zero entries: exact %d, code %d): the smoothing term of this dimension is not the stated one" % (
+                           names[f], po, order, n, "at scale 1" if f < 2 else "times %g" % h, e, scale, PEN_TOL, nz_exact, nz_code))
+
+
+def ks_evaluate(ctx, acc, path, pen=None):
     """judge the records (P, KS, R) of `mono_harness knotscale|ksreplay`"""
     lines = open(path).read().splitlines()
     ks = acc["knotscale"]
@@ -410,11 +464,17 @@ def ks_evaluate(ctx, acc, path):
                            "1-d, constraint inactive (unconstrained fit at axis scale %s non-negative and increasing with margin) but the monotonic fit at that scale differs from it by %.3e of the largest coefficient (penalty order %d, smoothing %g at scale 1)" % (
                                hdesc[0] if tag == "h" else "1", d, pm, dims[0]["smoothing"]))
 
+    # last, so that the first replay files of a run are property-level failing inputs (fits), then the matrices behind them
+    if pen:
+        npen = pen[2] if len(pen) > 2 else len(lines) // 3
+        ks_penalty(ctx, acc, [(lines[q], lines[q + 1]) for q in range(0, min(len(lines) - 2, 3 * npen), 3)], pen[0], pen[1])
+
 
 def new_ks():
     ks = {"problems": 0, "mono_ok": 0, "compared_pow2": 0, "compared_general": 0, "worst_mono_pow2": 0.0, "worst_unc_pow2": 0.0, "worst_mono_general": 0.0,
           "worst_unc_general": 0.0, "inactive_checked": 0, "worst_inactive_rel": 0.0, "by_penalty_order_and_scale": {},
-          "tolerances": {"power_of_two_scales": KS_POW2_TOL, "other_scales": KS_TOL, "inactive_1d": INACTIVE_TOL}}
+          "penalty_matrices": 0, "worst_penalty_rel": 0.0, "penalty_exact_scaling": 0, "penalty_rounded_scaling": 0,
+          "tolerances": {"power_of_two_scales": KS_POW2_TOL, "other_scales": KS_TOL, "inactive_1d": INACTIVE_TOL, "penalty_matrix": PEN_TOL}}
     for c in range(len(KS_CLASSES)):
         ks["inactive_checked_class_%d" % c] = 0; ks["inactive_precondition_failed_class_%d" % c] = 0
     return ks
@@ -424,7 +484,9 @@ def knot_scale(ctx, acc, dist, exe, mode):
     n = 900 if ctx.tier == "quick" else 9000
     if mode != "shipped": n //= 5
     base = os.path.join(ctx.scratch, "c10ks_" + mode)
-    rc, out, err, retries = run_harness(ctx, exe, ["knotscale", str(n), base + ".out", base + ".stats"], mode)
+    npen = 150 if ctx.tier == "quick" else 1500
+    if mode != "shipped": npen //= 5
+    rc, out, err, retries = run_harness(ctx, exe, ["knotscale", str(n), base + ".out", base + ".stats", str(npen), base + ".K", base + ".C"], mode)
     acc["hang_retries"] += retries
     if rc != 0:
         ctx.tie_ok = False
@@ -440,8 +502,9 @@ def knot_scale(ctx, acc, dist, exe, mode):
     st["rule"] = ("problem it: penalty order of the monotonic dimension 1 + it mod 3; 2-d iff (it div 3) mod 3 = 2; data class (it div 9) mod 5; "
                   "scale of the monotonic dimension uniform over {2^20, 2^30, 2^-20, 1e6, 2^55|2^40|2^-30, 1e17|1e9|3e-5 (by penalty order 1|2|3)}; "
                   "smoothing 0.1..100 (class 1, monotonic dimension: 10..1000); four fits per problem")
+    st["penalty_matrix_records"] = "every dimension of the first %d problems: calc_penalty(mono = 1 and 0) on the knots at scale 1 and on the rescaled knots against the exact matrices of the model" % npen
     dist.setdefault("knot_scale_stream", {})[mode] = st
-    ks_evaluate(ctx, acc, base + ".out")
+    ks_evaluate(ctx, acc, base + ".out", (base + ".K", base + ".C", npen))
 
 
 def judge_values(ctx, acc, prob, values, mono_ok):
@@ -527,9 +590,9 @@ def finish(ctx, acc, dist):
     ctx.note("value_points=%d value_pairs=%d (increasing %d) worst_value_drop_ratio=%.1f inc_ok=%d" % (
         acc["value_points"], acc["value_pairs"], acc["value_increasing"], acc["worst_value_drop_ratio"], acc["inc_ok"]))
     ks = acc["knotscale"]
-    ctx.note("knot-scale: problems=%d (4 fits each) mono_ok=%d compared power-of-two scales=%d worst mono/unc=%.2e/%.2e other scales=%d worst mono/unc=%.2e/%.2e 1-d inactive at scale h checked=%d worst=%.2e" % (
+    ctx.note("knot-scale: problems=%d (4 fits each) mono_ok=%d compared power-of-two scales=%d worst mono/unc=%.2e/%.2e other scales=%d worst mono/unc=%.2e/%.2e 1-d inactive at scale h checked=%d worst=%.2e; penalty matrices code vs model=%d worst=%.2e" % (
         ks["problems"], ks["mono_ok"], ks["compared_pow2"], ks["worst_mono_pow2"], ks["worst_unc_pow2"], ks["compared_general"], ks["worst_mono_general"], ks["worst_unc_general"],
-        ks["inactive_checked"], ks["worst_inactive_rel"]))
+        ks["inactive_checked"], ks["worst_inactive_rel"], ks["penalty_matrices"], ks["worst_penalty_rel"]))
     ctx.note("fits=%d mono_ok=%d deriv_points=%d (positive %d) worst_neg_ratio=%.1f worst_err_ratio=%.1f inactive checked=%d (precondition failed %d) worst_inactive_rel=%.2e scaled checked=%d worst_scaled_rel=%.2e weight-scaled checked=%d worst_wscaled_rel=%.2e large-value-scaled checked=%d worst_dscaled_rel=%.2e weight-scale inactive checked=%d worst=%.2e hang_retries=%d reported=%s" % (
         acc["fits"], acc["mono_ok"], acc["deriv_points"], acc["deriv_positive"], acc["worst_neg_ratio"], acc["worst_err_ratio"],
         acc["inactive_checked"], acc["inactive_precondition_failed"], acc["worst_inactive_rel"], acc["scaled_checked"], acc["worst_scaled_rel"],
@@ -598,12 +661,12 @@ def replay(ctx, path):
     base = os.path.join(ctx.scratch, "replay")
     if r.get("knotscale"):
         open(base + ".p", "w").write(r["problem_line"] + "\n" + r["scale_line"] + "\n")
-        rc, out, err, retries = run_harness(ctx, exe, ["ksreplay", base + ".p", base + ".out"], "replay")
+        rc, out, err, retries = run_harness(ctx, exe, ["ksreplay", base + ".p", base + ".out", base + ".K", base + ".C"], "replay")
         acc = new_acc()
         if rc != 0:
             ctx.violation(dict(r, harness_rc=rc), "knot-scale stream of the monotonic-fit harness rc=%d on the replayed problem" % rc)
         else:
-            ks_evaluate(ctx, acc, base + ".out")
+            ks_evaluate(ctx, acc, base + ".out", (base + ".K", base + ".C"))
         finish(ctx, acc, {}); return
     open(base + ".p", "w").write(r["problem_line"] + "\n")
     rc, out, err, retries = run_harness(ctx, exe, ["replay", base + ".p", base + ".in", base + ".impl"], "replay")
